@@ -139,7 +139,7 @@ def _judge_failure(status, stdout, target, out, V):
             V("existing_output_file_changed", f"now {data[:80] if data is not None else 'deleted'!r}")
     elif out == "new_file" and os.path.exists(target):
         data = open(target, "r", errors="replace").read()
-        ok = data.startswith('r"""') and data.rstrip().count("class ") >= 1 and data.endswith("\n")
+        ok = clidrv.split_header(data)[0] is not None and data.rstrip().count("class ") >= 1 and data.endswith("\n")
         try:
             compile(data, "out.py", "exec")
         except SyntaxError:
@@ -173,11 +173,11 @@ def execute(case):
                     V("fault_free_run_fails", f"-o: status {st}: {se[-200:]}")
                 else:
                     data = open(target, encoding="utf8").read()
-                    body_file = data.split('\n"""\n', 1)[-1]
-                    body_out = so0.split('\n"""\n', 1)[-1]
+                    body_file = clidrv.split_header(data)[1]
+                    body_out = clidrv.split_header(so0)[1]
                     if body_file + "\n" != body_out:
                         V("file_differs_from_printed_text", f"file {body_file[-120:]!r} / stdout {body_out[-120:]!r}")
-                    if not data.startswith('r"""\ngenerated by json2python-models'):
+                    if clidrv.split_header(data)[0] is None:
                         V("file_lacks_header", data[:80])
                     if _has_code(so):
                         V("code_printed_although_o_given", so[:100])
@@ -316,7 +316,7 @@ def _inject(case):
             # the code absorbed the injected exception: the run must then satisfy the success clause
             outcome = "absorbed"
             ref_status, ref_out, _, _ = _traced_main(argv, d, 0) if case["out"] == "stdout" else (0, None, 0, False)
-            if case["out"] == "stdout" and so.split('\n"""\n', 1)[-1] != ref_out.split('\n"""\n', 1)[-1]:
+            if case["out"] == "stdout" and clidrv.split_header(so)[1] != clidrv.split_header(ref_out)[1]:
                 V("absorbed_fault_changes_output", so[-160:])
         return {"obs": [outcome], "viol": viol, "outcome": outcome, "show": f"{case['input']} k={case['kth']} status={status}",
                 "nontrivial": f"{case['input']}:{case['out']}:{case['kth']}"}
